@@ -323,8 +323,8 @@ def expr_root(e):
             f = e.func
             n = f.attr if isinstance(f, ast.Attribute) else getattr(f, "id", "")
             if isinstance(f, ast.Attribute):
-                if n in ALIASING or is_inplace_name(n):
-                    e = f.value; continue
+                if n in ALIASING or (n.endswith("_") and not n.endswith("__")) or n in ("copy_", "fill_", "requires_grad_"):
+                    e = f.value; continue          # views and torch's in-place methods return (an alias of) the receiver
                 return e, True                      # any other method allocates its result (trusted table: ALIASING)
             if n in RETURNS_ARGUMENT and e.args:
                 e = e.args[1] if n == "cast" and len(e.args) == 2 else e.args[0]; continue
@@ -418,8 +418,41 @@ class Ownership:
             return None if not out or True and not dominated and (name in self.params or not ds) else out
         return out
 
+    def stored_into(self, name, visited=None):
+        """values stored into the container `name` (or a local alias of it) anywhere in the function"""
+        visited = visited or set()
+        if name in visited: return []
+        visited.add(name)
+        out = []
+        for n in own_nodes(self.fn):
+            if isinstance(n, ast.Assign):
+                for t in n.targets:
+                    if isinstance(t, ast.Subscript) and isinstance(t.value, ast.Name) and t.value.id == name:
+                        out.append((n, n.value))
+            if isinstance(n, ast.Call) and isinstance(n.func, ast.Attribute) and n.func.attr in ("add_single", "__setitem__", "append") \
+                    and isinstance(n.func.value, ast.Name) and n.func.value.id == name and n.args:
+                out.append((n, n.args[-1]))
+        for d, v in self.defs.get(name, []):
+            if isinstance(v, ast.Name):
+                out += self.stored_into(v.id, visited)
+        return out
+
+    def element_access(self, e):
+        """name of the local container if e reads an element of it (X[...], X[...].attr, ...)"""
+        while isinstance(e, (ast.Attribute, ast.Call)):
+            e = e.func if isinstance(e, ast.Call) else e.value
+        if isinstance(e, ast.Subscript) and isinstance(e.value, ast.Name):
+            return e.value.id
+        return None
+
     def owned(self, e, site_stmt, depth=0, seen=None) -> Tuple[bool, str]:
         seen = seen or set()
+        cont = self.element_access(e) if depth == 0 else None
+        if cont is not None and cont in self.defs:
+            for stn, v in self.stored_into(cont):
+                ok, why = self.owned(v, self.enclosing_stmt(stn), depth + 1, seen)
+                if not ok:
+                    return False, f"element stored into {cont} at line {stn.lineno}: {why}"
         root, fresh = expr_root(e)
         if fresh: return True, "fresh allocation"
         if isinstance(root, ast.Constant): return True, "constant"
@@ -474,6 +507,10 @@ def inplace_sites(fn):
             for kw in n.keywords:
                 if kw.arg == "out":
                     yield n, kw.value, "out="
+            if isinstance(f, ast.Attribute) and f.attr == "solve_thunks":
+                for a in n.args:
+                    if isinstance(a, ast.Lambda):
+                        yield n, a.body, "thunk passed to solve_thunks must return fresh storage"
             if isinstance(f, ast.Name) and f.id in ("operate_",) and n.args:
                 yield n, n.args[0], "operate_()"
             if isinstance(f, ast.Attribute) and f.attr == "masked_fill_into" and n.args:
